@@ -17,12 +17,14 @@ class C20(Prop):
     id = 'C20'
     assumptions = ['the translator harness/gen_pyx.py renders the C semantics of the scalar kernels faithfully (operator trees, libc.math calls, '
                    'cdivision, output pointers as returned tuples); it is part of the trusted base',
-                   'only scalar kernels are translated: station / sample loops, memory-view indexing, OpenMP, the C random number generators and '
-                   'the C compiler are outside the model',
+                   'array kernels are rendered as Lean do-blocks over Array (flat C-contiguous indexing, shapes as naturals); reads outside an array give 0 and '
+                   'writes outside are dropped (undefined behaviour in C); np.empty storage is modelled as zeros; OpenMP, the C random number generators, the def-level '
+                   'memory-view plumbing and the C compiler are outside the model',
                    'the Windows-only replacements of libc functions (erf approximation) are not the code modelled',
                    'constant ND of the uniform prior is taken from its numeric definition (the gamma-function form is not evaluated)']
-    unproved = ['nested loops over stations, location samples and tensors, binning and random generation of the compiled extensions (not '
-                'translated: listed per function in the evidence)',
+    unproved = ['the 18 translated array kernels (station / location-sample / tensor loops of all likelihoods, ln_prod / ln_combine / ln_multipliers, scatter binning) are '
+                'evaluated against the Python paths at Float without an equality theorem; the *_gen variants, relative-amplitude loops and random generation are not '
+                'translated (listed per function in the evidence)',
                 'one-dimensional array reductions c_ln_normalise, c_dkl, c_dkl_uniform are translated (left folds) and evaluated against '
                 'ln_normalise / dkl of the Python path, without an equality theorem',
                 'kernels with a correspondence check but no equality theorem: cTape_MT6, cN_SDR, csingleSDR_SDR; uniform_prior_ratio in the '
@@ -157,6 +159,64 @@ class C20(Prop):
                 else:
                     a = [rng.uniform(0, 2 * PI), rng.uniform(0.02, PI / 2 - 0.02), rng.uniform(-PI, PI)]
                 yield {'kind': 'kernel', 'kernel': k, 'args': a}
+        # ---- array kernels (nested loops over stations, location samples and tensors; binning)
+        na = 10 if tier == 'quick' else 150
+        fams = ['pol', 'polprob', 'ar', 'pol+ar', 'polprob+ar', 'all', 'pol+polprob', 'ln_prod', 'ln_combine', 'ln_multipliers', 'bins']
+        for fam in fams:
+            for i in range(na):
+                c = {'kind': 'array', 'family': fam, 'kernel': 'array:' + fam, 'args': [1.0]}
+                if fam == 'bins':
+                    ns, nsta = rng.randint(1, 9), rng.randint(1, 3)
+                    b = rng.choice([0.5, 1.0, 2.0, 4.0])
+                    centres = [[(rng.uniform(20, 160), rng.uniform(10, 350)) for _ in range(nsta)] for _c in range(rng.randint(1, 3))]
+                    recs = []
+                    for _s in range(ns):
+                        ce = rng.choice(centres)
+                        w = rng.choice([0.1, 0.4, 0.6, 1.2]) * b
+                        recs.append([[round(t + rng.uniform(-w, w), 3), round(z + rng.uniform(-w, w), 3)] for (t, z) in ce])
+                    c.update(records=recs, bin=b, mult=[float(rng.randint(1, 9)) for _ in range(ns)])
+                    yield c
+                    continue
+                nloc, nmt = rng.randint(1, 3), rng.choice([1, 2, 3, 5, 6, 7])
+                coeff = lambda nst: [[[rng.uniform(-1, 1) for _ in range(6)] for _v in range(nloc)] for _u in range(nst)]
+                mts = []
+                for _w in range(nmt):
+                    g = [rng.gauss(0, 1) for _ in range(6)]
+                    nn_ = math.sqrt(sum(v * v for v in g))
+                    mts.append([v / nn_ for v in g])
+                c['mt'] = [[mts[w][k_] for w in range(nmt)] for k_ in range(6)]
+                c['marg'] = rng.choice([0, 0, 1])
+                c['lsm'] = [0.0] * nloc if rng.random() < 0.4 else [math.log(rng.uniform(0.2, 3.0)) for _ in range(nloc)]
+                if fam in ('ln_prod', 'ln_combine', 'ln_multipliers'):
+                    nst = rng.randint(1, 4)
+                    lnv = lambda: rng.choice([rng.uniform(-30, 0), rng.uniform(-2, 0), NEG_INF])
+                    c['p3'] = [[[lnv() for _w in range(nmt)] for _v in range(nloc)] for _u in range(nst)]
+                    c['q2'] = [[lnv() for _w in range(nmt)] for _v in range(nloc)]
+                    c['mult'] = [rng.uniform(0.1, 5.0) for _ in range(nloc)]
+                    yield c
+                    continue
+                if 'pol' in fam.split('+') or fam == 'all':
+                    nst = rng.randint(1, 4)
+                    c['a'] = coeff(nst)
+                    c['sigma'] = [10 ** rng.uniform(-2, 0) for _ in range(nst)]
+                if 'polprob' in fam.split('+') or fam == 'all':
+                    nst = rng.randint(1, 3)
+                    c['a_prob'] = coeff(nst)
+                    pos = [rng.random() for _ in range(nst)]
+                    c['pos'] = pos
+                    c['neg'] = [rng.choice([1 - q_, (1 - q_) * rng.random()]) for q_ in pos]
+                if 'ar' in fam.split('+') or fam == 'all':
+                    nst = rng.randint(1, 3)
+                    c['ax'], c['ay'] = coeff(nst), coeff(nst)
+                    c['z'] = [10 ** rng.uniform(-1.5, 1.5) for _ in range(nst)]
+                    c['psx'] = [10 ** rng.uniform(-1.3, -0.3) for _ in range(nst)]
+                    c['psy'] = [10 ** rng.uniform(-1.3, -0.3) for _ in range(nst)]
+                # mispick probabilities: one value for all stations (the ipmax == 1 branch) or one per polarity station
+                npol = len(c.get('sigma', c.get('pos', [0])))
+                c['ipp'] = [rng.choice([0.0, 0.1, rng.random() * 0.5])] if rng.random() < 0.5 else [rng.choice([0.0, rng.random() * 0.5]) for _ in range(npol)]
+                if fam in ('all', 'pol+polprob') and len(c['ipp']) != 1:
+                    c['ipp'] = c['ipp'][:1]         # the combined polarity kernels index one mispick array by both station counters
+                yield c
         yield {'kind': 'inventory'}
 
     # ------------------------------------------------------------------ the Python paths
@@ -164,6 +224,8 @@ class C20(Prop):
         np, pr, conv, alg = self.np, self.pr, self.conv, self.alg
         if case['kind'] == 'inventory':
             return {'translated': sorted(self.translated), 'skipped': self.report['skipped']}
+        if case['kind'] == 'array':
+            return self.impl_array(case)
         k, a = case['kernel'], case['args']
         unit = lambda i: [1.0 if j == i else 0.0 for j in range(6)]
         if k.endswith('gaussian_pdf'):
@@ -243,10 +305,115 @@ class C20(Prop):
             return {'v': [float(np.asarray(s2).flatten()[0]), float(np.asarray(d2).flatten()[0]), float(np.asarray(r2).flatten()[0])]}
         raise ValueError(k)
 
+    # ------------------------------------------------------------------ array kernels: Python paths and requests
+    ARRAY_KERNEL = {'pol': 'cprobability.c_polarity_ln_pdf', 'polprob': 'cprobability.c_polarity_probability_ln_pdf',
+                    'ar': 'cprobability.c_amplitude_ratio_ln_pdf', 'pol+ar': 'cprobability.c_polarity_ar_ln_pdf',
+                    'polprob+ar': 'cprobability.c_polarity_prob_combined_ln_pdf', 'all': 'cprobability.c_all_combined_ln_pdf',
+                    'pol+polprob': 'cprobability.c_combined_pol_ln_pdf', 'ln_prod': 'cprobability.ln_prod', 'ln_combine': 'cprobability.ln_combine',
+                    'ln_multipliers': 'cprobability.ln_multipliers', 'bins': 'cscatangle.get_multipliers'}
+
+    ARRAY_CALLEES = ['cprobability.station_polarity_ln_pdf', 'cprobability.station_polarity_probability_ln_pdf', 'cprobability.station_ar_ln_pdf',
+                     'cprobability.station_combined_polarity_ar_ln_pdf', 'cprobability.station_combined_polarity_probability_ar_ln_pdf',
+                     'cprobability.station_combined_all_ln_pdf', 'cprobability.station_combined_pol_ln_pdf']
+
+    def impl_array(self, case):
+        np, pr = self.np, self.pr
+        fam = case['family']
+        A = lambda key: np.array(case[key], dtype=float)
+        if fam == 'bins':
+            import os, tempfile
+            from MTfit.extensions import scatangle as sc
+            recs = [{'Name': ['S%d' % j for j in range(len(r))], 'TakeOffAngle': np.array([[v[0]] for v in r]), 'Azimuth': np.array([[v[1]] for v in r])} for r in case['records']]
+            d = tempfile.mkdtemp(prefix='c20bins_')
+            fn = os.path.join(d, 'x.scatangle')
+            try:
+                sc._output_scatangle(fn, recs, case['mult'])
+                raw, rawm = sc.parse_scatangle(fn, bin_size=0, _use_c=False)
+                binned, bm = sc.parse_scatangle(fn, bin_size=case['bin'], _use_c=False)
+            finally:
+                import shutil
+                shutil.rmtree(d, ignore_errors=True)
+            ang = [[[float(v) for v in np.asarray(r['TakeOffAngle']).flatten()], [float(v) for v in np.asarray(r['Azimuth']).flatten()]] for r in raw]
+            return {'angles': ang, 'mult_in': [float(v) for v in rawm], 'v': [float(v) for v in bm],
+                    'kept': [[float(v) for v in np.asarray(r['TakeOffAngle']).flatten()] + [float(v) for v in np.asarray(r['Azimuth']).flatten()] for r in binned]}
+        if fam == 'ln_prod':
+            # the Python fallback of every likelihood function: np.sum(ln_p, 0)
+            return {'v': [float(v) for v in np.sum(A('p3'), 0).flatten()]}
+        if fam == 'ln_combine':
+            return {'v': [float(v) for v in (np.sum(A('p3'), 0) + A('q2')).flatten()]}
+        if fam == 'ln_multipliers':
+            return {'v': [float(v) for v in (A('q2') + np.log(A('mult'))[:, None]).flatten()]}
+        mt = A('mt')
+        tot = 0
+        parts = fam.split('+') if fam != 'all' else ['pol', 'polprob', 'ar']
+        ipp = A('ipp')
+        for part in parts:
+            if part == 'pol':
+                tot = tot + pr.polarity_ln_pdf(A('a'), mt.copy(), A('sigma'), ipp if len(case['ipp']) > 1 else float(case['ipp'][0]), _use_c=False)
+            elif part == 'polprob':
+                tot = tot + pr.polarity_probability_ln_pdf(A('a_prob'), mt.copy(), A('pos'), A('neg'),
+                                                           ipp if len(case['ipp']) > 1 else float(case['ipp'][0]), _use_c=False)
+            else:
+                tot = tot + pr.amplitude_ratio_ln_pdf(A('z'), mt.copy(), A('ax'), A('ay'), A('psx'), A('psy'), _use_c=False)
+        tot = np.asarray(tot, dtype=float) + A('lsm')[:, None]
+        if case['marg']:
+            tot = np.asarray(pr.ln_marginalise(tot, axis=0), dtype=float)
+        return {'v': [float(v) for v in np.asarray(tot).flatten()]}
+
+    def array_request(self, kernel, values):
+        """request line of a translated array kernel: parameters by name (arrays as nested lists, scalars, naturals)"""
+        np = self.np
+        spec = self.report['array_kernel_params'][kernel]
+        arrs, sc, nats = [], [], []
+        for nm, kind in spec['params']:
+            v = values[nm]
+            if kind in ('arr', 'mv1', 'mv2', 'mv3'):
+                arr = np.array(v, dtype=float)
+                flat = [float(x) for x in arr.flatten()]
+                arrs.append('%d %s' % (len(flat), ' '.join(bits(x) for x in flat)) if flat else '0')
+                if kind != 'arr':
+                    nd = int(kind[2])
+                    shp = list(arr.shape) + [0] * nd
+                    nats += [int(x) for x in shp[:nd]]
+            elif kind == 'flt':
+                sc.append(float(v))
+            else:
+                nats.append(int(v))
+        return ('pyxi %s %d %s %d %s %d %s' % (kernel, len(arrs), ' '.join(arrs), len(sc), ' '.join(bits(x) for x in sc), len(nats), ' '.join(str(x) for x in nats))).replace('  ', ' ').strip()
+
+    def array_requests(self, case, impl):
+        fam = case['family']
+        k = self.ARRAY_KERNEL[fam]
+        if k not in self.report.get('array_kernel_params', {}):
+            return ['pyxi %s 0 0 0' % k]
+        if fam == 'bins':
+            return [self.array_request(k, {'angles': impl['angles'], 'bin_size': case['bin'], 'multipliers': impl['mult_in']})]
+        if fam == 'ln_prod':
+            return [self.array_request(k, {'p': case['p3']})]
+        if fam == 'ln_combine':
+            s0 = [[sum(col) for col in zip(*rows)] for rows in zip(*case['p3'])]
+            return [self.array_request(k, {'ln_p_1': s0, 'ln_p_2': case['q2']})]
+        if fam == 'ln_multipliers':
+            return [self.array_request(k, {'ln_p': case['q2'], 'multipliers': case['mult']})]
+        nloc, nmt = len(case['lsm']), len(case['mt'][0])
+        vals = {'ln_P': [0.0] * (nmt if case['marg'] else nloc * nmt), 'mt': case['mt'], 'marginalised': case['marg'], 'ln_P_loc_samples': [0.0] * nloc,
+                'location_samples_multiplier': case['lsm'], 'incorrect_polarity_prob_arr': case['ipp']}
+        if fam in ('polprob', 'polprob+ar'):
+            vals['a_arr'] = case['a_prob']
+        elif 'a' in case:
+            vals['a_arr'] = case['a']
+        for src, dst in (('sigma', 'sigma_arr'), ('a_prob', 'a_prob_arr'), ('pos', 'positive_probability_arr'), ('neg', 'negative_probability_arr'), ('z', 'z_arr'),
+                         ('ax', 'ax_arr'), ('ay', 'ay_arr'), ('psx', 'psx_arr'), ('psy', 'psy_arr')):
+            if src in case:
+                vals[dst] = case[src]
+        return [self.array_request(k, vals)]
+
     # ------------------------------------------------------------------ the translated kernels
     def requests(self, case, impl):
         if case['kind'] == 'inventory':
             return []
+        if case['kind'] == 'array':
+            return self.array_requests(case, impl) if isinstance(impl, dict) and 'exc' not in impl else []
         k, a = case['kernel'], case['args']
         b = lambda xs: ' '.join(bits(float(v)) for v in xs)
         if k.endswith('.acceptance'):
@@ -312,6 +479,9 @@ class C20(Prop):
             for k in ('cprobability.combine_mu', 'cprobability.combine_s'):
                 if k not in impl['translated']:
                     missing.append(k)
+            for k in sorted(set(self.ARRAY_KERNEL.values())) + self.ARRAY_CALLEES:
+                if k not in impl['translated']:
+                    missing.append(k)
             if missing:
                 return [('kernels no longer translated from the .pyx sources: %s' % ', '.join('%s (%s)' % (k, impl['skipped'].get(k.split('.')[0], {}).get(k.split('.')[1], '?')) for k in missing), None)]
             return []
@@ -323,6 +493,8 @@ class C20(Prop):
                 return [('translated kernel unavailable: %s' % r, None)]
             vals += reply_floats(r)
         k = case['kernel']
+        if case['kind'] == 'array':
+            return self._compare_array(case, impl, replies)
         if k.endswith('.dkl'):
             from common import run_driver
             n = len(case['p'])
@@ -358,7 +530,41 @@ class C20(Prop):
                 break
         return out
 
+    def _compare_array(self, case, impl, replies):
+        fam = case['family']
+        if not replies:
+            return [('no reply for the array kernel %s' % self.ARRAY_KERNEL[fam], None)]
+        toks = replies[0].split()
+        arrs, i = [], 0
+        try:
+            while i < len(toks):
+                n = int(toks[i])
+                arrs.append(reply_floats(' '.join(toks[i + 1:i + 1 + n])) if n else [])
+                i += 1 + n
+        except ValueError:
+            return [('translated kernel unavailable: %s' % replies[0][:80], None)]
+        got = arrs[0] if arrs else []
+        want = impl['v']
+        if fam == 'bins':
+            kept = [(m, a) for m, a in zip(got, impl['angles']) if m > 0]
+            if [m for m, _a in kept] != want:
+                return [('binning kernel get_multipliers gives bin weights %r, Python path %r (bin %s, records %r)' % ([m for m, _a in kept], want, case['bin'], case['records']), None)]
+            if [a[0] + a[1] for _m, a in kept] != impl['kept']:
+                return [('binning kernel keeps other records than the Python path (bin %s, records %r)' % (case['bin'], case['records']), None)]
+            return []
+        if len(got) != len(want):
+            return [('%s: array kernel returned %d values, Python path %d' % (self.ARRAY_KERNEL[fam], len(got), len(want)), None)]
+        for j, (m, p_) in enumerate(zip(got, want)):
+            if (m != m and p_ != p_) or (m < -600 and p_ < -600) or m == p_:
+                continue
+            tol = 1e-9 if 'ar' not in fam and fam != 'all' else 1e-7
+            if not close(m, p_, rtol=tol, atol=tol):
+                return [('%s (%s, marginalised=%s): translated loops give %r, Python path %r at flat index %d' % (self.ARRAY_KERNEL[fam], fam, case.get('marg'), m, p_, j), None)]
+        return []
+
     def nontrivial(self, case, impl):
+        if case['kind'] == 'array':
+            return True
         return case['kind'] == 'kernel' and all(v != 0 for v in case['args'])
 
     def branch(self, case, impl):
